@@ -724,7 +724,7 @@ func init() {
 			}
 			c.Eval(1)
 		}})
-		us = append(us, coldUnit("nasType", "accessor"))
+		us = append(us, coldUnits(tier, "nasType", "accessor")...)
 		return us
 	}
 	core.Register(p)
